@@ -321,6 +321,10 @@ def _one_return(fn):
         return norm(body[0].value)
     if len(body) == 1 and isinstance(body[0], ast.Expr):
         return 'EXPR ' + norm(body[0].value)
+    if len(body) == 2 and isinstance(body[0], ast.Assign) and len(body[0].targets) == 1 \
+            and isinstance(body[0].targets[0], ast.Name) and isinstance(body[1], ast.Return) \
+            and isinstance(body[1].value, ast.Name) and body[1].value.id == body[0].targets[0].id:
+        return norm(body[0].value)
     return None
 
 
